@@ -24,10 +24,13 @@ from dashlive.server.options.player_options import ShakaVersion, DashjsVersion
 from dashlive.server.options.types import OptionUsage
 
 from .base import HTMLHandlerBase
-from .decorators import (
-    current_stream,
-)
+from .exceptions import ManifestNotAvailable
 from .manifest_context import ManifestContext
+from .manifest_requests import (
+    manifest_not_ready,
+    multi_period_stream_not_ready,
+    not_ready_response,
+)
 from .navbar import NavBarItem
 from .utils import add_allowed_origins, is_https_request
 
@@ -203,7 +206,7 @@ class VideoPlayer(HTMLHandlerBase):
             title = stream_model.title
             if stream_model.timing_reference is None:
                 flask.flash(
-                    f'The timing reference needs to be set for stream "{current_stream.title}"',
+                    f'The timing reference needs to be set for stream "{stream_model.title}"',
                     "error",
                 )
                 return flask.redirect(flask.url_for("home"))
@@ -215,8 +218,14 @@ class VideoPlayer(HTMLHandlerBase):
                     f"Unknown stream: {html.escape(mps_name)}", 404
                 )
             title = multi_period.title
+            not_ready: str | None = multi_period_stream_not_ready(multi_period)
+            if not_ready is not None:
+                return not_ready_response(not_ready)
         app_cfg = flask.current_app.config["DASH"]
-        manifest += ".mpd"
+        if not manifest.endswith(".mpd"):
+            manifest += ".mpd"
+        if manifest not in manifests.manifest_map:
+            return flask.make_response(f"{html.escape(manifest)} not found", 404)
         context = self.create_context(title=title)
         try:
             options = self.calculate_options(mode, flask.request.args)
@@ -224,12 +233,18 @@ class VideoPlayer(HTMLHandlerBase):
             logging.error("Invalid CGI parameters: %s", err)
             return flask.make_response("Invalid CGI parameters", 400)
         options.remove_unused_parameters(mode)
-        dash_parms = ManifestContext(
-            manifest=manifests.manifest_map[manifest],
-            options=options,
-            stream=stream_model,
-            multi_period=multi_period,
-        )
+        try:
+            dash_parms = ManifestContext(
+                manifest=manifests.manifest_map[manifest],
+                options=options,
+                stream=stream_model,
+                multi_period=multi_period,
+            )
+        except ManifestNotAvailable as err:
+            return not_ready_response(str(err))
+        not_ready = manifest_not_ready(dash_parms)
+        if not_ready is not None:
+            return not_ready_response(not_ready)
         if stream_model:
             dash_parms.stream = stream_model.to_dict(
                 only={"pk", "title", "directory", "playready_la_url", "marlin_la_url"}
